@@ -102,3 +102,22 @@ def replay_window_lemma(r):
     exp = np.array([seq[i * stride:i * stride + width] for i in range(n)]).reshape(n, width)
     bad = res.shape != exp.shape or not np.array_equal(res, exp)
     return {"violation": bool(bad), "detail": "L=%d width=%d stride=%d: %d windows, expected %d" % (L, width, stride, res.shape[0], n)}
+
+
+def replay_difference_lemma(r):
+    from vectorizers._window_kernels import difference_kernel
+    inp = r["inputs"]
+    n_cols, start, step, stride = [int(inp[k]) for k in ("n_cols", "start", "step", "stride")]
+    if n_cols > 5000:
+        return {"violation": False, "detail": "too large to replay"}
+    try:
+        K = difference_kernel(n_cols, start, step, stride)
+    except Exception as e:
+        return {"violation": True, "detail": "%s: %s" % (type(e).__name__, e)}
+    rows = [k for k in range(n_cols) if start + k * stride + step < n_cols]
+    E = np.zeros((len(rows), n_cols))
+    for k in rows:
+        E[k, start + k * stride] = -1
+        E[k, start + k * stride + step] = 1
+    bad = K.shape != E.shape or not np.array_equal(K, E)
+    return {"violation": bool(bad), "detail": "n_cols=%d start=%d step=%d stride=%d: shape %s expected %s" % (n_cols, start, step, stride, K.shape, E.shape)}
